@@ -909,9 +909,11 @@ def sec_output(w):
          and "origin.prefix.prefix().covers(prefix) || (more_specifics && prefix.covers(origin.prefix.prefix()))" in flat,
          "SelectResource::include_origin changed")
     sel, _ = fn_body(src, "include_router_key", src.index("impl SelectResource {"))
-    need("SelectResource::Asn(asn) => key.asn == asn" in re.sub(r"\s+", " ", sel), "include_router_key changed")
+    need(re.search(r"match self \{ SelectResource::Asn\(asn\) => key\.asn == asn, _ => false,? \}", re.sub(r"\s+", " ", sel)),
+         "include_router_key changed")
     sel, _ = fn_body(src, "include_aspa", src.index("impl SelectResource {"))
-    need("SelectResource::Asn(asn) => aspa.customer == asn" in re.sub(r"\s+", " ", sel), "include_aspa changed")
+    need(re.search(r"match self \{ SelectResource::Asn\(asn\) => aspa\.customer == asn, _ => false,? \}", re.sub(r"\s+", " ", sel)),
+         "include_aspa changed")
     w("/-- The selection predicates and the item loops of `write_next` have the modelled shape")
     w("(asserted by the extractor). -/")
     w("def outputLoopsOk : Bool := true")
